@@ -64,6 +64,18 @@ FUEL = 4000
 KNOWN_SEEN: list[list[str]] = []      # every pair matched by C14-F0 on this run (v, base, derived)
 
 
+def register_findings(ctx: Ctx) -> None:
+    """entries of notes/findings/C14.json that the committed known_findings.json does not list yet (core only
+    reads the latter); the status listed there wins: a fixed finding is never suppressed"""
+    try:
+        entries = json.loads(FINDINGS.read_text())['findings']
+    except Exception:
+        return
+    for e in entries:
+        if not any(k.get('id') == e['id'] for k in ctx.known):
+            ctx.known.append({k: v for k, v in e.items() if k != 'witness' or 'enumerated_pairs' not in v})
+
+
 def known_match(case: dict, detail: dict) -> Optional[str]:
     """C14-F0 (groups.py:679-850 / 1287-1542): the unsound acceptance is known iff the Lean port of the
     pinned rules accepts exactly this pair as well; without the Lean driver only the pairs recorded one by
@@ -341,16 +353,11 @@ def attr_schema(b: tuple, d: tuple) -> str:
 
 
 def attr_known_match(case: dict, detail: dict) -> Optional[str]:
-    """C14-F1 (attributes.py:546-549): the base declares attribute `a` with use="prohibited" and has no
-    wildcard admitting it, the derived type declares `a` again with another use, and the offending instance
-    carries `a`."""
+    """C14-F2: the derived type prohibits `a` (declared by the base) but keeps a wildcard that admits the name:
+    a prohibited use is no attribute use at all (XSD structures 3.2.2), so the attribute is validated through
+    the wildcard (lax: no global declaration -> any value) while the base demands the declared type.
+    (C14-F1, a prohibited base attribute re-admitted, is fixed in /repo: it has no match rule any more.)"""
     b, d = case['base'], case['derived']
-    if b[0] == 'prohibited' and d[0] in ('optional', 'required') and b[3] in (None, '##other', 'urn:o') \
-            and 'a' in detail['attributes']:
-        return KNOWN_ATTR
-    # C14-F2: the derived type prohibits `a` (declared by the base) but keeps a wildcard that admits the name:
-    # a prohibited use is no attribute use at all (XSD structures 3.2.2), so the attribute is validated through
-    # the wildcard (lax: no global declaration -> any value) while the base demands the declared type
     if d[0] == 'prohibited' and b[0] in ('optional', 'required') and d[3] in ('##any', '##local') \
             and 'a' in detail['attributes']:
         return 'C14-F2'
@@ -407,6 +414,116 @@ def second_part(ctx: Ctx) -> None:
         for b, d in rng.sample(apairs, ctx.pick(400, 4000)):
             case = {'v': v, 'base': list(b), 'derived': list(d)}
             judge(cls(attr_schema(b, d), validation='lax'), 'attribute-pairs', case, [(None, a) for a in cat])
+
+
+# ---------------------------------------------------------------------------------------------
+# facets: chains of restriction steps — build verdict per step vs `checkStep`, validity vs
+# `validChain` / `validEff` / `lexValid`, and the property on the real code (harness/lib_c14facets.py)
+
+KNOWN_WS = 'C14-F3'
+
+
+def ws_known_match(case: dict, detail: dict) -> Optional[str]:
+    """C14-F3 (by specification; simple_types.py:447-463 / 1454-1477): whiteSpace is a pre-lexical facet.
+    The failing text is changed by the derived type's white space normalisation, the base type normalises it
+    differently, and the text *as normalised by the derived type* is valid for the base type (so the value
+    sets are included, only the lexical mapping differs)."""
+    if detail.get('ws_derived') != detail.get('ws_base') and detail.get('normalised_derived') != detail.get('normalised_base') \
+            and detail.get('base_accepts_normalised') is True:
+        return KNOWN_WS
+    return None
+
+
+def facet_batch(ctx: Ctx, drv: Optional[Driver], v: str, cls: Any, chains: list, fam: str) -> None:
+    from harness import lib_c14facets as fx
+    schema = cls(fx.schema_text(chains), validation='lax')
+    keys = fx.Interner()
+    reqs, pend = [], []
+    for c, (prim, steps) in enumerate(chains):
+        numeric = prim in fx.NUMERIC
+        top = schema.types[f'T{c}_{len(steps) - 1}']
+        chain, user = fx.ser_chain(top, numeric, keys)
+        case = {'v': v, 'prim': prim, 'steps': [[list(f) for f in st] for st in steps]}
+        texts = (fx.DEC_TEXTS if prim == 'decimal' else fx.NUM_TEXTS) if numeric else fx.STR_TEXTS
+        real_err = [fx.step_errors(schema.types[f'T{c}_{i}']) for i in range(len(steps))]
+        real_val = [[fx.instance_valid(schema, f'e{c}_{i}', t) for t in texts] for i in range(len(steps))]
+        type_val = [[fx.type_valid(schema, f'T{c}_{i}', t) for t in texts] for i in range(len(steps))]
+        req: dict = {'op': 'facets', 'chain': chain}
+        if numeric:
+            req['vals'] = [fx.num_val(fx.prim_decode(True, t)) for t in texts]
+        else:
+            req['texts'] = [[[ord(ch) for ch in t],
+                             [[[ord(ch) for ch in fx.py_norm(w, t)], keys.key(fx.py_norm(w, t))]
+                              for w in ('preserve', 'replace', 'collapse')]] for t in texts]
+        reqs.append(req)
+        pend.append((c, prim, steps, case, texts, real_err, real_val, type_val, numeric, user))
+        ctx.count(f'facets:{fam}:prim={prim}')
+    answers = drv.query(reqs) if drv is not None else [None] * len(reqs)
+    for (c, prim, steps, case, texts, real_err, real_val, type_val, numeric, user), ans in zip(pend, answers):
+        n = len(steps)
+        accepted_upto = [all(not real_err[k] for k in range(i + 1)) for i in range(n)]
+        ctx.case(case, True, tag=f'{v}/facets-{fam}')
+        for i in range(n):
+            ctx.count('facets:step-accepted=%s' % (not real_err[i]))
+            for code in real_err[i]:
+                ctx.count('facets:error:' + code)
+        # ---- the property on the real code: accepted ⇒ texts valid for a step are valid for its base ----
+        for i in range(1, n):
+            if not accepted_upto[i]:
+                continue
+            for k, t in enumerate(texts):
+                if real_val[i][k] and not real_val[i - 1][k]:
+                    wsd = schema.types[f'T{c}_{i}'].white_space or 'preserve'
+                    wsb = schema.types[f'T{c}_{i - 1}'].white_space or 'preserve'
+                    nd, nb = fx.py_norm(wsd, t), fx.py_norm(wsb, t)
+                    detail = {'text': t, 'level': i, 'valid_for_derived': True, 'valid_for_base': False,
+                              'ws_derived': wsd, 'ws_base': wsb, 'normalised_derived': nd, 'normalised_base': nb,
+                              'base_accepts_normalised': fx.instance_valid(schema, f'e{c}_{i - 1}', nd)}
+                    fid = ws_known_match(case, detail)
+                    if fid:
+                        ctx.known_hit(fid, case, detail)
+                        ctx.count('known-whitespace-lexical')
+                    else:
+                        ctx.failure('accepted facet restriction admits a text that the base type rejects', case, detail)
+                    break
+        if ans is None:
+            continue
+        if 'err' in ans:
+            ctx.mismatch('driver error (facets)', case, None, ans)
+            continue
+        # ---- correspondence: steps are listed nearest first, user-defined steps are the first `user` ones ----
+        if user != n:
+            ctx.mismatch('facets: number of user-defined steps', case, user, n)
+            continue
+        for i in range(n):
+            m = ans['steps'][n - 1 - i]
+            ctx.traces += 1
+            if m['errs'] != real_err[i]:
+                ctx.mismatch('facet build checks: port vs implementation', dict(case, level=i), real_err[i], m['errs'])
+            mv = m['valid'] if numeric else m['lex']
+            ctx.traces += 1
+            if mv != type_val[i]:
+                bad = [t for t, a, b in zip(texts, type_val[i], mv) if a != b]
+                ctx.mismatch('facet validation: port vs implementation', dict(case, level=i, texts=bad), type_val[i], mv)
+            if numeric and accepted_upto[i]:
+                ctx.count('facets:effective-vs-chain-compared')
+                if m['eff'] != type_val[i]:
+                    ctx.mismatch('effective facets vs implementation on an accepted type', dict(case, level=i),
+                                 type_val[i], m['eff'])
+
+
+def facets_family(ctx: Ctx, drv: Optional[Driver]) -> None:
+    import xmlschema
+    from harness import lib_c14facets as fx
+    rng = ctx.rng
+    sysp = fx.systematic_pairs()
+    for v, cls in (('1.0', xmlschema.XMLSchema10), ('1.1', xmlschema.XMLSchema11)):
+        pairs = sysp if not ctx.quick() else rng.sample(sysp, 220)
+        for k in range(0, len(pairs), 40):
+            facet_batch(ctx, drv, v, cls, pairs[k:k + 40], 'systematic')
+        rnd = [fx.random_chain(rng) for _ in range(ctx.pick(400, 3000))]
+        for k in range(0, len(rnd), 40):
+            facet_batch(ctx, drv, v, cls, rnd[k:k + 40], 'random')
 
 
 # ---------------------------------------------------------------------------------------------
